@@ -42,6 +42,47 @@ def run(chk, repo):
     compose(chk, repo)
     windows(chk, repo)
     oversize(chk, repo)
+    rw_merge(chk, repo)
+
+
+def rw_merge(chk, repo):
+    """R18.5: a terminal used by several devices is allocated with the OR
+    of their read-write flags (an output region is reserved as soon as one
+    device writes)"""
+    chk.doc("R18.5", "read-write flags of a shared terminal are OR-ed")
+    sym = C + "SyncGroupBase.__init__"
+    f = repo.func(sym)
+    loops = [l for l in walk_no_nested(f) if isinstance(l, ast.For)
+             and "devices" in unparse(l.iter)]
+    need(len(loops) == 1, f"{sym}: loop over the devices not found")
+    lp = loops[0]
+    gt = [c for c in calls_in(lp) if isinstance(c.func, ast.Attribute)
+          and c.func.attr == "get_terminals"]
+    need(len(gt) == 1, f"{sym}: get_terminals() not called in the loop")
+    merges = []
+    for st in ast.walk(lp):
+        if isinstance(st, ast.AugAssign) and isinstance(
+                st.target, ast.Subscript) and isinstance(st.op, ast.BitOr):
+            merges.append(st)
+        elif isinstance(st, ast.Assign) and isinstance(
+                st.targets[0], ast.Subscript) and isinstance(
+                    st.value, (ast.BoolOp, ast.BinOp)) and (
+                isinstance(getattr(st.value, "op", None), (ast.Or,
+                                                           ast.BitOr))) \
+                and unparse(st.targets[0].value) in unparse(st.value):
+            merges.append(st)
+    overwrites = [c for c in calls_in(lp) if isinstance(c.func, ast.Attribute)
+                  and c.func.attr == "update"] + [
+        st for st in ast.walk(lp) if isinstance(st, ast.Assign)
+        and isinstance(st.targets[0], ast.Subscript) and st not in merges]
+    ok = len(merges) == 1 and not overwrites
+    chk.ob("R18.5", sym, "flags of one terminal from several devices are "
+           "combined with `or`", ok, merges[0] if merges else (
+               overwrites[0] if overwrites else lp),
+           f"`{unparse(merges[0])}`" if ok else
+           "the flag of the device that comes last wins: a terminal shared "
+           "by a writing and a read-only device gets no output region, and "
+           "the writer's variables have no place in the frame")
 
 
 def allocators(chk, repo):
